@@ -6,6 +6,13 @@ Import ListNotations.
 Local Open Scope N_scope.
 
 (* the receive buffer fields do not influence frame reception *)
+Lemma fail_decrypt_rbuf s b r t i n :
+  fail_decrypt (upd_rbuf s b r t i) n = upd_rbuf (fail_decrypt s n) b r t i.
+Proof.
+  unfold fail_decrypt. change (dec_ctr (upd_rbuf s b r t i)) with (dec_ctr s).
+  destruct ((if dec_ctr s =? 0 then IvLenRecv + MinTagLen else MinTagLen) <=? n); reflexivity.
+Qed.
+
 Lemma recv_we_rbuf_indep s f b r t i :
   recv_frame_we (upd_rbuf s b r t i) f =
   match recv_frame_we s f with
@@ -25,14 +32,14 @@ Proof.
     change (key (upd_rbuf s b r t i)) with (key s).
     destruct (enc_active s).
     + destruct (key s) as [k|]; [|reflexivity].
-      unfold decrypt. destruct (f_body f) as [bs|ivo c]; [reflexivity|].
+      unfold decrypt. cbv zeta. destruct (f_body f) as [bs|ivo c]; [rewrite fail_decrypt_rbuf; reflexivity|].
       change (dec_ctr (upd_rbuf s b r t i)) with (dec_ctr s).
       assert (Hw : forall div,
-        match decrypt_with (upd_rbuf s b r t i) k (hdr_of (f_flag f) (body_len (Ct ivo c))) div c with
+        match decrypt_with (upd_rbuf s b r t i) k (hdr_of (f_flag f) (body_len (Ct ivo c))) div c (body_len (Ct ivo c)) with
         | (s1, SOk d) => (note_recv s1 (hdr_of (f_flag f) (body_len (Ct ivo c)) ++ d), SOk (d, f_flag f))
         | (s1, SErr e) => (s1, SErr e)
         end =
-        match match decrypt_with s k (hdr_of (f_flag f) (body_len (Ct ivo c))) div c with
+        match match decrypt_with s k (hdr_of (f_flag f) (body_len (Ct ivo c))) div c (body_len (Ct ivo c)) with
               | (s1, SOk d) => (note_recv s1 (hdr_of (f_flag f) (body_len (Ct ivo c)) ++ d), SOk (d, f_flag f))
               | (s1, SErr e) => (s1, SErr e)
               end with
@@ -42,9 +49,10 @@ Proof.
       { intro div. unfold decrypt_with.
         change (dec_ctr (upd_rbuf s b r t i)) with (dec_ctr s).
         change (aad_recv (upd_rbuf s b r t i)) with (aad_recv s).
-        destruct (open k (nonce_of div (dec_ctr s)) (aad_recv s (hdr_of (f_flag f) (body_len (Ct ivo c)))) c); reflexivity. }
-      destruct (dec_ctr s =? 0); destruct ivo as [iv|]; try reflexivity.
-      * destruct (lenN iv =? 16); [apply Hw|reflexivity].
+        destruct (open k (nonce_of div (dec_ctr s)) (aad_recv s (hdr_of (f_flag f) (body_len (Ct ivo c)))) c);
+          [reflexivity|rewrite fail_decrypt_rbuf; reflexivity]. }
+      destruct (dec_ctr s =? 0); destruct ivo as [iv|]; try (rewrite fail_decrypt_rbuf; reflexivity).
+      * destruct (lenN iv =? 16); [apply Hw|rewrite fail_decrypt_rbuf; reflexivity].
       * change (dec_iv (upd_rbuf s b r t i)) with (dec_iv s). apply Hw.
     + destruct (f_body f); reflexivity.
 Qed.
